@@ -436,6 +436,7 @@ pub struct Machine<'p> {
     /// heap and free registers at the marker of a print statement (must be unchanged at the next
     /// statement boundary)
     pub print_guard: Option<((u64, bool), (u64, bool))>,
+    pub print_vars: Option<(Vec<(String, super::Chi)>, Vec<(u64, bool)>, Vec<(u64, bool)>)>,
     /// lowest stack address written so far
     pub stack_low: u64,
     pub prints: Vec<PrintEv>,
@@ -550,6 +551,28 @@ impl<'p> Machine<'p> {
         Ok(t)
     }
 
+    /// contents of the first (`snd` false) or second temporary of the variables at positions 0..n
+    fn locs_for(&mut self, n: usize, snd: bool) -> Vec<(u64, bool)> {
+        let mut out = Vec::with_capacity(n);
+        for pos in 0..n {
+            let ctx = super::x86::dummy_context(pos);
+            let t = <axcut2aarch64::Backend as Utils<Temporary>>::fresh_temporary(if snd { TemporaryNumber::Snd } else { TemporaryNumber::Fst }, &ctx);
+            match t {
+                Temporary::Register(r) => out.push(self.get(backend_reg(r))),
+                Temporary::Spill(s) => {
+                    let a = self.regs[SP as usize].wrapping_add(stack_offset(s).val as u64);
+                    if a % 8 == 0 && self.stack.contains(a) {
+                        let i = self.stack.idx(a);
+                        out.push((self.stack.words[i], self.stack.def[i]));
+                    } else {
+                        out.push((0, false));
+                    }
+                }
+            }
+        }
+        out
+    }
+
     fn roots_for(&mut self, n: usize) -> Vec<(u64, bool)> {
         // position -> temporary by the backend's own map: in a context with `pos` bindings,
         // fresh_temporary(Fst) is the first temporary of position pos
@@ -587,6 +610,7 @@ impl<'p> Machine<'p> {
             flags_clobbered: false,
             max_written: 0,
             print_guard: None,
+            print_vars: None,
             stack_low: STACK_TOP,
             prints: Vec::new(),
             stats: EmuStats::default(),
@@ -634,6 +658,27 @@ impl<'p> Machine<'p> {
                     }
                     if mk.kind == "print" {
                         self.print_guard = Some(now);
+                    }
+                    // a print statement leaves the context as it is: every variable is found in
+                    // the same place with the same contents at the next marker
+                    if let Some((env, fst, snd)) = self.print_vars.take() {
+                        if self.stats.print_changed.is_none() && env.iter().map(|e| &e.0).eq(mk.env.iter().map(|e| &e.0)) {
+                            let (f2, s2) = (self.locs_for(env.len(), false), self.locs_for(env.len(), true));
+                            for (i, (name, chi)) in env.iter().enumerate() {
+                                let ext = matches!(chi, super::Chi::Ext);
+                                if (snd[i].1 && snd[i] != s2[i]) || (!ext && fst[i].1 && fst[i] != f2[i]) {
+                                    self.stats.print_changed = Some(format!(
+                                        "variable {name} (position {i} of {}) held ({:#x}, {:#x}) before the print statement and ({:#x}, {:#x}) after it",
+                                        env.len(), fst[i].0, snd[i].0, f2[i].0, s2[i].0
+                                    ));
+                                    break;
+                                }
+                            }
+                        }
+                    }
+                    if mk.kind == "print" {
+                        let (f, s2) = (self.locs_for(mk.env.len(), false), self.locs_for(mk.env.len(), true));
+                        self.print_vars = Some((mk.env.clone(), f, s2));
                     }
                 }
                 if cfg.heap_check_every > 0 && self.stats.markers % cfg.heap_check_every == 0 {
